@@ -175,13 +175,29 @@ def gen_nearly_feasible(rng):
     return {"A": A, "b": b, "c": [rng.randint(-3, 3) for _ in range(n)], "floats": rng.random() < 0.5}
 
 
+def gen_cover(rng):
+    """covering rows (-a.x <= -d: phase 1 has to bring original variables into the basis) plus a few packing rows, every cost non-zero
+    and of either sign: phase 2 starts from a basis that holds costly variables and has to pivot them out again"""
+    n = rng.randint(2, 4)
+    rows, rhs = [], []
+    for _ in range(rng.randint(1, 3)):
+        rows.append([-rng.randint(0, 4) for _ in range(n)])
+        rhs.append(-rng.randint(1, 6))
+    for _ in range(rng.randint(0, 2)):
+        rows.append([rng.randint(-3, 4) for _ in range(n)])
+        rhs.append(rng.randint(0, 9))
+    return {"A": rows, "b": rhs, "c": [rng.choice([-5, -4, -3, -2, -1, 1, 2, 3, 4, 5]) for _ in range(n)], "floats": rng.random() < 0.5}
+
+
 def gen(rng, big=False):
     r0 = rng.random()
     if r0 < 0.05:
         return gen_nearly_feasible(rng)
-    if r0 < 0.12:
+    if r0 < 0.2:
+        return gen_cover(rng)
+    if r0 < 0.3:
         return gen_degenerate_pairs(rng)
-    if r0 < 0.35:
+    if r0 < 0.48:
         return gen_equalities(rng)
     m, n = (rng.randint(1, 4), rng.randint(1, 4)) if big else (rng.randint(1, 3), rng.randint(1, 3))
     lim = 3 if max(m, n) == 4 else 5
